@@ -357,8 +357,10 @@ static bool is_open(int fd) { return fcntl(fd, F_GETFD) != -1; }
 static void poll_reals() {
     for (auto &r : reals) if (!is_open(r.fd)) { closes.push_back(r.serial); if (dup2(devnull, r.fd) != r.fd) { perror("dup2"); _exit(3); } }
 }
+static bool zero_fake = false;      // this script's fake descriptor with serial 1 carries the value 0
 static long long serial_of(int v) {
     if (v == -1) return 0;
+    if (v == 0 && zero_fake) return 1;
     if (v >= 1000000) return v - 1000000;
     auto it = serial_of_real.find(v); return it == serial_of_real.end() ? -1 : it->second;
 }
@@ -393,7 +395,8 @@ static void apply(const Op &op) {
             reals.push_back({fd, k}); serial_of_real[fd] = k;
             slot[op.h].reset(new Fd(fd));
         } else {
-            int v = 1000000 + (int)k;
+            if (k == 1) zero_fake = true;
+            int v = k == 1 ? 0 : 1000000 + (int)k;      // descriptor 0 is a descriptor like any other (the first fake one of every script)
             slot[op.h].reset(new Fd(v, [k, v](int got) { closes.push_back(got == v ? k : -1); }));
         }
         extra = std::string(",\"real\":") + B(op.real) + ",\"k\":" + S(k);
@@ -411,7 +414,7 @@ static void apply(const Op &op) {
 }
 static void begin() {
     if (devnull < 0) { devnull = open("/dev/null", O_RDWR); if (devnull < 0) { perror("/dev/null"); _exit(3); } }
-    nserial = 0; closes.clear();
+    nserial = 0; closes.clear(); zero_fake = false;
 }
 static void end() {     // the remaining copies go away: logged, so that "closed when the last copy goes away" is checked too
     for (int h = 1; h <= NH; ++h) if (slot[h]) { Op d; d.e = "fdel"; d.h = h; apply(d); }
